@@ -417,6 +417,7 @@ func init() {
 
 func runC17(c *Cfg) {
 	runSpecial(c, "C17", "replaced-exec-style")
+	runSpecial(c, "C17", "typed-struct-slice-items")
 	r := c.Rep
 	nz := len(zoo.Fixed())
 	var cases []*FnCase
